@@ -86,7 +86,7 @@ func runSeq(c *run.Ctx) {
 	if c.Batch == 0 {
 		runFixedSeq(c, &st)
 	}
-	n := c.Pick(2400, 48000)
+	n := c.Pick(6400, 128000)
 	lo, hi := c.Share(n)
 	shrunk := 0
 	for i := lo; i < hi; i++ {
@@ -128,11 +128,12 @@ func runSeq(c *run.Ctx) {
 	c.Stat("seq_selection_entries_checked", st.entries)
 	c.Stat("seq_selections_with_expired_pending", st.expiredMoves)
 	c.Stat("seq_gc_resets", st.gcResets)
+	c.Stat("seq_selections_in_orphaned_index_state", st.orphanStates)
 }
 
 func runConc(c *run.Ctx) {
 	var st concStats
-	n := c.Pick(4000, 80000)
+	n := c.Pick(6400, 128000)
 	lo, hi := c.Share(n)
 	for i := lo; i < hi; i++ {
 		r := run.NewRng(c.Seed, 2, uint64(i))
@@ -201,13 +202,18 @@ func runForkChild(c *run.Ctx) {
 	if c.Batch == 0 {
 		runFixedFork(c, &st)
 	}
-	n := c.Pick(64, 1280)
+	n := c.Pick(96, 1920)
 	lo, hi := c.Share(n)
 	for i := lo; i < hi; i++ {
 		if only := os.Getenv("C18_FORK_ONLY"); only != "" && only != fmt.Sprint(i) {
 			continue
 		}
+		v0 := st.violations
 		runForkScenario(c, i, &st)
+		c.Stat(fmt.Sprintf("fork_scenarios_mode%d", i%4), 1)
+		if st.violations > v0 {
+			c.Stat(fmt.Sprintf("fork_scenarios_mode%d_ended_by_a_violation", i%4), 1)
+		}
 	}
 	flushForkStats(c, &st)
 }
@@ -224,7 +230,7 @@ func spawnForkChild(c *run.Ctx, args []string) {
 			env = append(env, e)
 		}
 	}
-	env = append(env, childEnv+"=fork", "GORACE=halt_on_error=0 history_size=5 log_path="+logPrefix)
+	env = append(env, childEnv+"=fork", "GORACE=halt_on_error=0 exitcode=0 history_size=5 log_path="+logPrefix)
 	cmd.Env = env
 	cmd.Stderr = os.Stderr
 	cmd.SysProcAttr = &syscall.SysProcAttr{Pdeathsig: syscall.SIGKILL}
@@ -242,7 +248,9 @@ func spawnForkChild(c *run.Ctx, args []string) {
 		}
 		os.Stdout.WriteString(line + "\n")
 	}
-	if err != nil || !done {
+	// (a race-built child exits with the detector's exit code when it has reported anything: only the
+	// "done" line tells whether it finished)
+	if !done {
 		// the child's stderr (panic trace) is already on ours: die without the "done" line so that the
 		// driver classifies the crash
 		fmt.Fprintf(os.Stderr, "fork monitor child did not finish: %v\n", err)
